@@ -125,6 +125,13 @@ Proof.
   transitivity (vsq b2 + 2 * d * vdot b2 (e_y g) + d * d * vsq (e_y g));
     [unfold raised, vsq, vdot; cbn [vadd vscal vx vy vz]; ring | rewrite E; ring].
 Qed.
+(* a detector at or above the beam axis: the raised beam is never the zero vector *)
+Lemma raised_nonzero_above b2 g d : 0 < vnorm g -> 0 < vnorm b2 -> 0 <= vdot b2 (e_y g) -> 0 <= d ->
+  0 < vnorm (raised b2 g d).
+Proof.
+  intros Hg Hb2 Hy Hd. apply vnorm_pos_iff. rewrite raised_sq by assumption.
+  apply vnorm_pos_iff in Hb2. nra.
+Qed.
 (* same component along the beam, longer vector => larger angle *)
 Lemma angle_longer b1 b2 c : 0 < vnorm b1 -> 0 < vnorm b2 -> vnorm b2 < vnorm c ->
   vdot b1 c = vdot b1 b2 -> 0 < vdot b1 b2 -> angle b1 b2 < angle b1 c.
